@@ -11,8 +11,9 @@
 (*   [k |-> "reserve", n |-> bits]                reserve n                *)
 (*   [k |-> "segment", a |-> address]             segment a                *)
 (* with operand expressions  E = [b |-> "num" | "lbl" | "cur", n |-> name, *)
-(* o |-> integer]  meaning  o,  label + o,  $ + o   ($ = the address AFTER *)
-(* the current op).  All addresses are unbounded integers (FJInt).         *)
+(* m |-> integer, o |-> integer]  meaning  o,  m * label + o,  $ + o       *)
+(* ($ = the address AFTER the current op).  All addresses are unbounded    *)
+(* integers (FJInt).                                                       *)
 (*                                                                         *)
 (* Layout(prog, w) is the first pass: the address of every statement and   *)
 (* label, the source segments and their pieces (a `reserve` ends a piece), *)
@@ -79,7 +80,7 @@ ExprValue(e, lay, i, w) ==
     CASE e.b = "num" -> [ok |-> TRUE, v |-> e.o]
       [] e.b = "cur" -> [ok |-> TRUE, v |-> IAdd(IAdd(lay.at[i], W2(w)), e.o)]
       [] e.b = "lbl" -> LET lv == LabelValue(lay.labels, e.n)
-                        IN IF lv.ok THEN [ok |-> TRUE, v |-> IAdd(lv.v, e.o)] ELSE [ok |-> FALSE]
+                        IN IF lv.ok THEN [ok |-> TRUE, v |-> IAdd(IMul(e.m, lv.v), e.o)] ELSE [ok |-> FALSE]
 
 \* statement ranges: ops occupy [at, at + 2w); reserved ranges [s, e)
 OpRange(lay, i, w) == <<lay.at[i], IAdd(lay.at[i], W2(w))>>
